@@ -16,6 +16,11 @@ use std::time::Instant;
 
 pub const VERIF_DIR: &str = "/verif";
 
+/// where replays and evidence go (overridable for sensitivity self-tests run from scratch copies)
+pub fn out_dir() -> String {
+    std::env::var("VERIF_OUT").unwrap_or_else(|_| VERIF_DIR.to_string())
+}
+
 #[derive(Clone, Copy, PartialEq, Eq, Debug)]
 pub enum Tier {
     Quick,
@@ -431,8 +436,8 @@ fn run_sub(prop: &Property, sub: &SubCheck, params: &Arc<Params>, cases_override
                         let s = wt.start_ms.load(Ordering::Relaxed);
                         if s != 0 && now > s && now - s > hang_limit_ms {
                             let words = wt.words.lock().map(|g| g.clone()).unwrap_or_default();
-                            let path = format!("{VERIF_DIR}/replays/{pid}-{sname}-hang.json");
-                            let _ = std::fs::create_dir_all(format!("{VERIF_DIR}/replays"));
+                            let path = format!("{}/replays/{pid}-{sname}-hang.json", out_dir());
+                            let _ = std::fs::create_dir_all(format!("{}/replays", out_dir()));
                             let _ = std::fs::write(
                                 &path,
                                 serde_json::to_string(&json!({"property": pid, "sub": sname, "tape": words, "signature": "hang"}))
@@ -635,7 +640,7 @@ pub fn write_replay(prop: &str, sub: &SubCheck, params: &Params, words: &[u32], 
         f.sig.hash(&mut s);
         s.finish()
     };
-    let dir = format!("{VERIF_DIR}/replays");
+    let dir = format!("{}/replays", out_dir());
     let _ = std::fs::create_dir_all(&dir);
     let path = format!("{dir}/{prop}-{}-{:012x}.json", sub.name, h & 0xffff_ffff_ffff);
     let doc = json!({
@@ -801,7 +806,7 @@ pub fn run_property(prop: &Property, opts: &RunOpts, extra: Option<Extra>) -> i3
             "wall_s": t0.elapsed().as_secs_f64(),
             "violations": violations,
         });
-        let dir = format!("{VERIF_DIR}/evidence");
+        let dir = format!("{}/evidence", out_dir());
         let _ = std::fs::create_dir_all(&dir);
         let path = format!("{dir}/{}.json", prop.id);
         if let Err(e) = std::fs::write(&path, serde_json::to_string_pretty(&ev).unwrap_or_default()) {
